@@ -64,9 +64,19 @@ type KnownFile struct {
 }
 
 var (
-	repoDir  = "/repo"
+	repoDir  = repoDirDefault()
 	verifDir = verifDirDefault()
 )
+
+// repoDirDefault: /repo; VERIF_REPO points the engine at another working tree of the
+// same repository (used only by seedtest.sh, so that a seeded change is applied to a
+// scratch worktree and never to /repo; the registered commands do not set it).
+func repoDirDefault() string {
+	if v := os.Getenv("VERIF_REPO"); v != "" {
+		return v
+	}
+	return "/repo"
+}
 
 func verifDirDefault() string {
 	if v := os.Getenv("VERIF_DIR"); v != "" {
